@@ -10,7 +10,7 @@ ID = 'C04'
 LEVEL = 'exploration'
 RUNS = {'quick': 24000, 'thorough': 400000}
 CHUNK = 100
-PROBES = ['two_feeders_on_one_parser', 'paged_feed_generator', 'long_window', 'same_name_code_pair', 'parser_built_with_thread_map', 'earlier_parser_object', 'timestamps_not_monotone', 'timestamp_ties', 'record_names_thread_with_open_window', 'stray_end', 'stray_end_inside_open_window', 'reopened_start', 'crossing_pairs', 'nested_same_thread',
+PROBES = ['enumerated_start_end_order', 'two_feeders_on_one_parser', 'paged_feed_generator', 'long_window', 'same_name_code_pair', 'parser_built_with_thread_map', 'earlier_parser_object', 'timestamps_not_monotone', 'timestamp_ties', 'record_names_thread_with_open_window', 'stray_end', 'stray_end_inside_open_window', 'reopened_start', 'crossing_pairs', 'nested_same_thread',
           'other_thread_between', 'trace_domain_window', 'trace_record_inside_ordinary_window', 'undecoded_pair',
           'unknown_code', 'all_qualifier', 'fragment_none', 'fault_in_open_window', 'decoder_raised']
 RULE = ('one run = 1..6 thread programs (all decoder families, trace-domain records, known-but-undecoded and unknown '
@@ -76,7 +76,58 @@ def _pattern_ops(rng, ctx):
     return [rec(a, 1), rec(b, 2), rec(a, 2)]
 
 
+_SEQS = None
+
+
+def canonical_sequences(maxlen=7, codes=3):
+    """Every sequence of START / END records of one thread over at most `codes` codes, up to renaming of the codes (the first
+    code used is 0, the next new one 1, ...), beginning with a START, of length 3..maxlen - ordered by length."""
+    global _SEQS
+    if _SEQS is None:
+        out = []
+
+        def grow(seq, used):
+            if len(seq) >= 3:
+                out.append(tuple(seq))
+            if len(seq) == maxlen:
+                return
+            for k in range(min(codes, used + 1)):
+                for q in (1, 2):
+                    if k == used and q == 2:
+                        continue          # the END of a code never started: covered by the stray-END patterns
+                    grow(seq + [(k, q)], max(used, k + 1))
+        grow([(0, 1)], 1)
+        out.sort(key=lambda t: (len(t), t))
+        _SEQS = out
+    return _SEQS
+
+
 def generate(rng, index, tier):
+    if index % 3 == 2:
+        # the short orders of STARTs and ENDs of one thread, enumerated (run index -> sequence), each with a seeded choice of
+        # codes, of NONE records in between and of a second thread
+        seqs = canonical_sequences()
+        seq = seqs[(index // 3) % len(seqs)]
+        cat = worlds.catalog()
+        domain_mix = rng.pick(['ord', 'ord', 'trace', 'mixed'])
+        pool_ord = [cat['ids'][n] for n in ('BSC_read', 'BSC_getpid', 'MACH_vmfault', 'MSC_mach_reply_port', 'BSC_write') if n in cat['ids']] + [k for k, _v in cat['undecoded'][:3]]
+        pool_trace = [cat['ids'][n] for n in ('TRACE_STRING_THREADNAME', 'TRACE_STRING_GLOBAL', 'TRACE_DATA_EXEC', 'TRACE_STRING_THREADNAME_PREV') if n in cat['ids']]
+        chosen = []
+        for k in range(3):
+            pool = pool_trace if domain_mix == 'trace' or (domain_mix == 'mixed' and rng.chance(0.5)) else pool_ord
+            chosen.append(rng.pick([x for x in pool if x not in chosen] or pool))
+        ops = []
+        for k, q in seq:
+            ops.append({'k': 'raw', 'id': chosen[k], 'q': q, 'a': [1, 2, 3, 4] if chosen[k] in pool_ord else worlds.kernel.records.text_words(b'ab', 4)})
+            if rng.chance(0.2):
+                ops.append(worlds.op_single(rng, 'MACH_MKRUNNABLE'))
+        threads = [{'tid': 100, 'ops': ops}]
+        if rng.chance(0.4):
+            threads.append({'tid': 117, 'ops': worlds.gen_ops(rng, worlds.Ctx(1, 117, [100, 117]), 2, {'bsd': 1, 'mach': 1, 'tracedom': 1})})
+        per = kernel.expand_threads(threads, cat['ids'])
+        return {'threads': threads, 'schedule': kernel.draw_schedule(rng, per, rng.pick(kernel.SHAPES)), 'faults': [], 'tsmode': None,
+                'tmap': rng.chance(0.5), 'earlier': False, 'late_table': False, 'paged': rng.chance(0.2), 'two_feeders': rng.chance(0.2),
+                'consumer_edits': rng.chance(0.15), 'enumerated': len(seq)}
     if index % 2999 == 37:
         # a busy system: as many distinct threads as a count the source names, each leaving an operation open, while one early
         # thread sits inside an ordinary and a trace-domain window that close at the very end
@@ -168,6 +219,8 @@ def execute(scn):
     index_of = {id(e): i for i, e in enumerate(events)}
     if scn.get('long'):
         bump('probe:long_window')
+    if scn.get('enumerated'):
+        bump('probe:enumerated_start_end_order')
     if scn.get('earlier'):
         # a DIFFERENT parser object is fed the STARTs and data records of the first half of the stream and then dropped:
         # nothing it saw may influence the judged parser (no module-level / class-level / default-argument state)
@@ -187,7 +240,8 @@ def execute(scn):
     tmap = {}
     if scn.get('tmap'):
         bump('probe:parser_built_with_thread_map')
-        tmap = {th['tid']: 5000 + i for i, th in enumerate(scn['threads'])}
+        # (the pid of thread i is the first pid its own program announces: a thread that creates a thread or execs names its own process)
+        tmap = {th['tid']: ((i + 1) * 1000 + 1 if i % 2 == 0 else 5000 + i) for i, th in enumerate(scn['threads'])}
     if scn.get('late_table'):
         partial = {k: v for k, v in table.items() if v not in tool.TRACE_DOMAIN_NAMES and k % 8 != 0}
         parser = tool.tp_mod.TracesParser(partial, tmap, {p: 'proc%d' % p for p in tmap.values()})
